@@ -25,3 +25,10 @@ GROUPS = [
     lib("getobj_list", ["C06", "C07", "C17"], loops="lib.json", nloops=1, kind="bounded", bound=MAPCAP.replace("64", "16"), defines=["QSV_MAPCAP=16"]),
     lib("getbnds_list", ["C06", "C07", "C17"], loops="lib.json", nloops=1, kind="bounded", bound=MAPCAP.replace("64", "16"), defines=["QSV_MAPCAP=16"]),
 ]
+SB = "2 rows (fixed: size-header arrays), lists of at most 2 distinct entries, arbitrary initial senses/ranges satisfying the representation invariant; loops completely unwound"
+GROUPS += [
+    Group("lib/chgsense_b", "lib_sense.c", tus=LIB, model=MODEL, defines=["FN_chgsense"], dfcc=False, unwind=6, kind="bounded", bound=SB, flags=["--no-malloc-may-fail"],
+          functions=["ILLlib_chgsense"], props=["C06", "C05", "C07", "C17"]),
+    Group("lib/chgrange_b", "lib_sense.c", tus=LIB, model=MODEL, defines=["FN_chgrange"], dfcc=False, unwind=6, kind="bounded", bound=SB, flags=["--no-malloc-may-fail"],
+          functions=["ILLlib_chgrange"], props=["C06", "C05", "C07", "C17"]),
+]
